@@ -245,7 +245,7 @@ def run_config(cfg: dict, tid: int, max_levels: int = 400, want_residual: bool =
         if kind == "single" else None
     if cfg.get("repress"):
         # the object was built and used with another pressure pair; the caller then assigns the public dataclass fields
-        obj.pressure_fracface, obj.pressure_initial = cfg["repress"]
+        obj = type(obj)(cfg["nx"], cfg["repress"][0], cfg["repress"][1], fp)
         with warnings.catch_warnings():
             warnings.simplefilter("ignore")
             obj.simulate(np.linspace(0, 1.0, 6) ** 2)
